@@ -74,8 +74,27 @@ func addV6Options(rt *rapid.T, p *bld, withClient bool) {
 			p.raw(rapid.SampledFrom([][]byte{duidA, duidA, duidB, {}, {0}, hx("0002 00000009 aabb")}).Draw(rt, "cid")...)
 		})
 	}
+	d := dictFor("dhcpv6")
 	for n := rapid.IntRange(0, 6).Draw(rt, "nopts"); n > 0; n-- {
-		switch c := rapid.SampledFrom([]int{2, 2, 3, 3, 25, 25, 6, 8, 14, 16, 18, 9, 99}).Draw(rt, "opt"); c {
+		c := pick(rt, "opt", 2, 2, 3, 3, 25, 25, 6, 8, 14, 16, 17, 17, 17, 18, 9, 99)
+		if uni(rt, 100, "optFromDict") < 20 {
+			c = int(dictInt(rt, d, 16, "optCode"))
+		}
+		switch c {
+		case 16: // Vendor Class: enterprise number, then length-prefixed opaque items
+			v6opt(p, 16, func() {
+				p.raw(be32(dictInt(rt, d, 32, "enterprise"))...)
+				subTLVs(rt, p, d, 0, 2, false, "vclass")
+			})
+		case 17: // Vendor-specific Information: enterprise number, then sub-options (code, length, data)
+			v6opt(p, 17, func() {
+				if uni(rt, 12, "vendorShort") > 0 {
+					p.raw(be32(dictInt(rt, d, 32, "enterprise"))...)
+					subTLVs(rt, p, d, 2, 2, false, "vopt")
+				} else {
+					p.raw(rbytes(rt, 0, 3, "vendorStub")...)
+				}
+			})
 		case 2:
 			v6opt(p, 2, func() {
 				p.raw(rapid.SampledFrom([][]byte{srvDUID6, srvDUID6, srvDUID6, duidB, {}, {0}}).Draw(rt, "sid")...)
@@ -98,7 +117,7 @@ func addV6Options(rt *rapid.T, p *bld, withClient bool) {
 
 func bldV6Message(rt *rapid.T) *bld {
 	p := &bld{}
-	p.u8(rapid.SampledFrom([]int{1, 1, 3, 3, 4, 5, 6, 8, 9, 11, 12, 7, 0, 200}).Draw(rt, "msgType"))
+	p.u8(dictType(rt, dictFor("dhcpv6"), "msgType", 1, 1, 3, 3, 4, 5, 6, 8, 9, 11, 12, 7, 0, 200))
 	p.raw(0xa1, 0xb2, 0xc3)
 	addV6Options(rt, p, rapid.IntRange(0, 9).Draw(rt, "hasClientID") > 0)
 	return p
@@ -217,6 +236,27 @@ func init() {
 	// rest = raw UDP payload.
 	register(&target{
 		name: "dhcp6-handler", nsel: d6Sel,
+		dictSeeds: func() [][]byte {
+			// every integer literal of the package (and the boundary values) as enterprise number of a Vendor-specific
+			// Information option x hostile sub-option lists, in the messages a bound client sends
+			var o [][]byte
+			seen := map[uint64]bool{}
+			for _, v := range append(dictFor("dhcpv6").ints(32), boundaries...) {
+				if seen[v] {
+					continue
+				}
+				seen[v] = true
+				for _, sh := range innerShapes(2, 2, false) {
+					body := append(be32(v), sh...)
+					vo := append([]byte{0, 17, byte(len(body) >> 8), byte(len(body))}, body...)
+					for _, typ := range []byte{1, 3, 5, 11} {
+						m := mkV6(typ, v6Client, v6Server, v6IANA)
+						o = append(o, withSel(append(m, vo...), 1, 0, 0, 0, 0))
+					}
+				}
+			}
+			return o
+		},
 		run: func(data []byte, c *caseInfo) {
 			sel, raw := split(data, d6Sel)
 			var s *dhcpv6.Server
